@@ -78,6 +78,18 @@ func (pipeline *FullSyncPipeline) sync(job *job, ctx context.Context) (int, erro
 	}
 	verifhook.Point(runner, "pipeline.full.afterStart")
 	syncJobState.ContinuationToken = ""
+	// A fullsync replays the source's change history into the sink from the start. If it fails, is killed
+	// or the process dies half way, the sink is left with older versions than the stored incremental token
+	// accounts for, and incremental runs would never bring them back. Forget the token now, so that the
+	// next run of either type starts from the beginning.
+	if pipeline.sink.GetConfig()["Type"] != "HttpDatasetSink" ||
+		(isDatasetSource && dss.LatestOnly) ||
+		pipeline.source.GetConfig()["Type"] == "MultiSource" {
+		err = runner.store.StoreObject(server.JobDataIndex, job.id, syncJobState)
+		if err != nil {
+			return 0, err
+		}
+	}
 	entCnt := 0
 	tags := []string{"application:datahub", "job:" + job.title}
 	for keepReading {
